@@ -884,8 +884,36 @@ func vRbfPure(out *vWriter, master *vrng) {
 	for i := 0; i < vCases(300, 5000); i++ {
 		r := master.fork(uint64(8_000_000 + i))
 		s := vScript(r, int(r.rng(0, 6)))
-		if r.intn(5) == 0 {
+		switch r.intn(8) {
+		case 0:
 			s = r.bytes(int(r.rng(0, 6)))
+		case 1:
+			// OP_RETURN + one opcode + data of (nearly) the right length
+			op := byte(vPick(r, 0, 1, 2, 40, 74, 75, 0x4f, 0x50, 0x51, 0x60, 0x61,
+				0x6a, 0xac))
+			n := int64(0)
+			if op >= 1 && op <= 75 {
+				n = int64(op)
+			}
+			n += vPick(r, 0, 0, 0, 1, -1)
+			if n < 0 {
+				n = 0
+			}
+			s = append([]byte{0x6a, op}, r.bytes(int(n))...)
+		case 2:
+			// OP_PUSHDATA1/2/4 with lengths around MaxDataCarrierSize
+			l := vPick(r, 0, 1, 75, 79, 80, 81, 82, 255)
+			d := r.bytes(int(l + vPick(r, 0, 0, 0, 1, -1)))
+			switch r.intn(3) {
+			case 0:
+				s = append([]byte{0x6a, 0x4c, byte(l)}, d...)
+			case 1:
+				s = append([]byte{0x6a, 0x4d, byte(l), byte(r.intn(2) / 1 * r.intn(2))}, d...)
+			default:
+				s = append([]byte{0x6a, 0x4e, byte(l), 0, byte(r.intn(4) / 3), 0}, d...)
+			}
+		case 3:
+			s = []byte{0x6a}
 		}
 		out.emit(vJ{"k": "ropret", "s": vHex(s), "res": input.ScriptIsOpReturn(s)})
 
